@@ -18,5 +18,14 @@ let handle (w : string list) : string =
      | Run s -> String.concat " " ["RUN"; string_of_int (int_of_z s.fanout); string_of_int (int_of_z s.ctimeout);
                                    string_of_int (int_of_z s.utimeout); hexs s.ruser; hexs s.rcmd;
                                    (match s.misc with Some m -> hexs m | None -> "_"); hexs s.rpath])
+  | "wcoll" :: file :: files ->
+    (* files: path=content pairs in hex *)
+    let fs = List.map (fun pc -> match String.split_on_char '=' pc with
+                                 | [p; c] -> (bytes_of_hex p, bytes_of_hex c) | _ -> failwith "fs") files in
+    (match read_wcoll fs (bytes_of_hex file) with
+     | RFatal -> "FATAL"
+     | ROk (exprs, _, warns) ->
+       let h = List.fold_left (fun h e -> fst (push h e)) hl_empty exprs in
+       "OK W=" ^ string_of_int (int_of_nat warns) ^ " " ^ hexlist (iter_all h.ranges))
   | _ -> "MODEL-BADCASE"
 let () = main_loop handle
